@@ -328,4 +328,20 @@ theorem block_get (rows : List Vec) (ro rs co cs r c : Nat) (hr : r < rs) (hc : 
   | none => simp
   | some row => simp [hc, List.getElem?_drop]
 
+theorem bump_zero (x : Vec) (i : Nat) : bump x i 0 = x := by
+  unfold bump getR
+  apply List.ext_getElem?
+  intro j
+  rw [List.getElem?_set]
+  by_cases hij : i = j
+  · subst hij
+    by_cases hi : i < x.length
+    · simp [hi]
+    · simp [hi]
+  · simp [hij]
+
+theorem getR_polyFun (ps : List Poly) (y : Vec) (j : Nat) (hj : j < ps.length) :
+    getR (polyFun ps y) j = ps[j].eval y := by
+  simp [getR, polyFun, List.getD_eq_getElem?_getD, List.getElem?_eq_getElem hj]
+
 end GV.C16
